@@ -335,7 +335,7 @@ func (fox *Router) NewRoute(pattern string, handler HandlerFunc, opts ...RouteOp
 		clientip:              fox.clientip,
 		hbase:                 handler,
 		pattern:               pattern,
-		mws:                   fox.mws,
+		mws:                   fox.mws[:len(fox.mws):len(fox.mws)], // clip, so route options never append into the router's slice
 		redirectTrailingSlash: fox.redirectTrailingSlash,
 		ignoreTrailingSlash:   fox.ignoreTrailingSlash,
 		psLen:                 n,
